@@ -1,23 +1,52 @@
 import ribgen
 
 CONFIG = dict(
-    level_text="(in progress) Lean model of table/src/lib.rs (Table, Ord for RibEntry, evpn_type2_cmp, ecmp_paths) and "
-               "Attribute::as_path_length; the C06 reference checker (decision order written from the property text) is run as "
-               "oracle on the real Table's observations and the model is diffed against the real code on generated histories.",
-    level_note="Trusted: Lean kernel; hand-written model (checked by the correspondence stream only); harness glue.",
-    lean_modules=["Rbgp.Rib.SpecC06"],
-    theorems=[],
+    level_text="Kernel-checked Lean theorems about a model of table/src/lib.rs for ALL well-formed cases and ALL finite histories "
+               "of the twelve Table operations: every returned NlriChange carries exactly the exportable (ranked, eligible) paths "
+               "of its prefix after the step; a prefix whose exportable list changes gets a notification with any_changed, one "
+               "whose best identity (source, attributes, next hop) changes gets one with best_changed; at most one notification "
+               "per prefix and step; destination ids of live prefixes are pairwise distinct and stable; a deferring family is "
+               "silent and the end of a deferral announces every prefix with an exportable path; and the master theorem: the C06 "
+               "reference checker (three consumers folding the stream: full, best-only, add-path) accepts every model run.  The "
+               "model is tied to the real code by running the real Table and the model on the same generated histories and "
+               "diffing complete observations after every operation; the reference checker is the oracle on the real outputs.",
+    level_note="Trusted: Lean kernel; axioms propext/Classical.choice/Quot.sound; the hand-written model (checked only by the "
+               "correspondence stream); harness glue (case decoding, Arc identity -> index). Modelled, not verified: hash-map "
+               "iteration order (notifications of one call are compared as a set keyed by prefix), sort_unstable tie order, u32 "
+               "wrap of next_path_id, one shard only (dest_id shard bits = 0).",
+    lean_modules=["Rbgp.Rib.PropsC06"],
+    theorems=[
+        "Rbgp.Rib.PropsC06.check_run_ok",
+        "Rbgp.Rib.PropsC06.fold_full_eq",
+        "Rbgp.Rib.PropsC06.fold_nonaddpath_best_eq",
+        "Rbgp.Rib.PropsC06.fold_addpath_topN_eq",
+        "Rbgp.Rib.PropsC06.ids_unique",
+        "Rbgp.Rib.PropsC06.deferral_silent",
+        "Rbgp.Rib.PropsC06.end_deferral_complete",
+    ],
     harness=dict(kind="pt", bin="c06"),
     profiles=["debug", "release"], profile_in_case=True,
     n_quick=1500, n_thorough=120000, shards=12,
-    nontrivial_re=r"\(st ",
-    rule="histories over one Table: candidate paths from colliding attribute domains (LOCAL_PREF {90,100,110,absent}, AS_PATH "
-         "segment templates incl. AS_SET / confed / 300 hops, ORIGIN 0-2, five peer roles, 3 router-ids / ORIGINATOR_IDs, "
-         "CLUSTER_LIST of 0/1/2, LLGR_STALE / NO_LLGR communities, MAC mobility none/0/1 on EVPN type-2), arrival orders, "
-         "replace / remove / drop / restale / restale_llgr / purges / next-hop flips; distinct = distinct case line",
-    expect_tokens=[],
-    trusted_base=[], modelled_not_verified=[], assumptions=[],
-    claimed=False, na_reason="proofs in progress",
+    # non-trivial = some operation returned a notification
+    nontrivial_re=r"\(st \(chs? \(",
+    rule="histories over one Table: up to 6 prefixes in two families, up to 5 sessions incl. a restarted session of the same "
+         "peer address, path-ids 0-2, attribute sets from colliding domains, next hops 1-3/none; operations insert, replace, "
+         "remove, drop peer, restale, restale_llgr, drop_stale, drop_llgr_stale, drop_no_llgr, next-hop validity flips, "
+         "start/end deferral (deferral stream: families deferred from the start), prefix limits; plus structural mutations; "
+         "distinct = distinct case line",
+    expect_tokens=["nochange", "limit", "(chs)", "(chs (", "(ch (", " f t - ", " t t - ", " f t 1 ", "(stale 0",
+                   "(llgr 0", "(fam ev (dests ((m", "(bad-case)"],
+    trusted_base=["model Rbgp/Rib/Model.lean of table/src/lib.rs",
+                  "harness/pt/src/rib.rs (shared with C02/C15): real Table through its public API; every returned "
+                  "InsertResult / NlriChange and collect_loc_rib_paths after each step are observed"],
+    modelled_not_verified=["hash-map iteration order", "sort_unstable tie order", "u32 wrap-around of next_path_id",
+                           "a single shard (shard_idx 0)"],
+    assumptions=["well-formed case (Case.WF): one family per Source, sources referred to by position",
+                 "a deferral is an episode that starts on a family whose exportable state is empty (the restarting speaker at "
+                 "start-up, daemon/src/event/mod.rs); a family whose deferral starts otherwise is no longer judged by the fold "
+                 "clauses (weaker than the quantifier 'all histories with start/end deferral': Table::insert is silent while "
+                 "deferring, so a consumer that already holds state for the family cannot be kept exact by any stream)"],
+    claimed=True,
 )
 
 
